@@ -33,6 +33,7 @@ type DocScript struct {
 		Dst []int `json:"dst"`
 	} `json:"runs"`
 	RTTs        []int       `json:"rtts"`
+	FirstTTL    int         `json:"first_ttl"` // TTL of the first hop of every run (default 1: a library caller may start higher)
 	DPort       *int        `json:"dport"`   // destination port of every run (default 33434; 0: ICMP has no ports)
 	RTTDiv      int         `json:"rtt_div"` // samples are rtts[i] / rtt_div milliseconds (0/1: whole milliseconds): sub-microsecond parts
 	Enrich      bool        `json:"enrich"`
@@ -144,11 +145,15 @@ func runDocInner(t *testing.T, s *Scenario) []wire.Event {
 			res.Protocol = "icmp"
 		}
 	}
+	firstTTL := 1
+	if ds.FirstTTL > 1 {
+		firstTTL = ds.FirstTTL
+	}
 	for _, r := range ds.Runs {
 		run := result.TracerouteRun{Destination: result.TracerouteDestination{IPAddress: ipOf(r.Dst), Port: dport},
 			Source: result.TracerouteSource{IPAddress: net.IPv4(10, 77, 0, 1).To4(), Port: 40000}}
 		for i, h := range r.Hops {
-			run.Hops = append(run.Hops, &result.TracerouteHop{TTL: i + 1, IPAddress: ipOf(h.B), RTT: float64(h.RTT), IsDest: h.Dest})
+			run.Hops = append(run.Hops, &result.TracerouteHop{TTL: i + firstTTL, IPAddress: ipOf(h.B), RTT: float64(h.RTT), IsDest: h.Dest})
 		}
 		res.Traceroute.Runs = append(res.Traceroute.Runs, run)
 	}
